@@ -50,7 +50,7 @@ def realRaw : Raw :=
     dflt := Gen.defaultedStates
     endTok := 0          -- "$end"
     nlTok := 55          -- "NEWLINE" (checked in Real.lean)
-    reach := Gen.reachCert
+    reach := Gen.stateReachCert
     acc := Gen.accCert
     preds := Gen.predsCert }
 
